@@ -2168,6 +2168,13 @@ void mmd_export_token_latex_raw(DString * out, const char * source, token * t, s
 
 
 void mmd_export_token_tree_latex_raw(DString * out, const char * source, token * t, scratch_pad * scratch) {
+	// Prevent stack overflow with "dangerous" input causing extreme recursion
+	if (scratch->recurse_depth == kMaxExportRecursiveDepth) {
+		return;
+	}
+
+	scratch->recurse_depth++;
+
 	while (t != NULL) {
 		if (scratch->skip_token) {
 			scratch->skip_token--;
@@ -2177,6 +2184,8 @@ void mmd_export_token_tree_latex_raw(DString * out, const char * source, token *
 
 		t = t->next;
 	}
+
+	scratch->recurse_depth--;
 }
 
 
@@ -2395,6 +2404,13 @@ void mmd_export_token_latex_tt(DString * out, const char * source, token * t, sc
 
 
 void mmd_export_token_tree_latex_tt(DString * out, const char * source, token * t, scratch_pad * scratch) {
+	// Prevent stack overflow with "dangerous" input causing extreme recursion
+	if (scratch->recurse_depth == kMaxExportRecursiveDepth) {
+		return;
+	}
+
+	scratch->recurse_depth++;
+
 	while (t != NULL) {
 		if (scratch->skip_token) {
 			scratch->skip_token--;
@@ -2404,6 +2420,8 @@ void mmd_export_token_tree_latex_tt(DString * out, const char * source, token * 
 
 		t = t->next;
 	}
+
+	scratch->recurse_depth--;
 }
 
 int clean_text_sort(fn_holder * a, fn_holder * b) {
